@@ -143,7 +143,7 @@ def gas(lines, syntax='intel'):
                     f.write('.intel_syntax noprefix\n')
                 else:
                     f.write('.att_syntax\n')
-                f.write('.text\n')
+                f.write('.text; .set sd_foo, 0; .set sd_bar, 0\n')       # two absolute symbols (value 0, as miasmX resolves unknown symbols) for symbol-difference operands
                 # line number of entry j is 3 + 4*j + 1 (label, insn, label, lens)
                 for j, i in enumerate(active):
                     f.write('LS%d:\n%s\nLE%d:\n.pushsection .lens,\"a\"; .byte LE%d-LS%d; .popsection\n' % (j, lines[i].replace('\n', ' '), j, j, j))
